@@ -34,6 +34,18 @@
 #include "version.h"
 
 #if 2 == VBI_VERSION_MINOR
+/* In libzvbi 0.2 vbi_sampling_par is a typedef of vbi_raw_decoder, and
+   vbi_raw_decoder_parameters() passes its (locked) decoder here: clear
+   the public sampling parameters only, never the mutex, the pattern
+   pointer and the other private decoder state behind them. */
+#  include <stddef.h>
+#  define CLEAR_SAMPLING_PAR(sp)					\
+	memset ((sp), 0, offsetof (vbi_raw_decoder, mutex))
+#else
+#  define CLEAR_SAMPLING_PAR(sp) CLEAR (*(sp))
+#endif
+
+#if 2 == VBI_VERSION_MINOR
 #  define vbi_pixfmt_bytes_per_pixel VBI_PIXFMT_BPP
 #  define sp_sample_format sampling_format
 #else
@@ -460,7 +472,7 @@ _vbi_sampling_par_from_services_log
 			warning (log,
 				 "Ambiguous videostd_set 0x%lx.",
 				 (unsigned long) videostd_set_req);
-			CLEAR (*sp);
+			CLEAR_SAMPLING_PAR (sp);
 			return 0;
 		}
 
@@ -547,7 +559,7 @@ _vbi_sampling_par_from_services_log
 	}
 
 	if (0 == rservices) {
-		CLEAR (*sp);
+		CLEAR_SAMPLING_PAR (sp);
 		return 0;
 	}
 
